@@ -213,6 +213,56 @@ Unit(
 
 
 # --------------------------------------------------------------------------
+# _abandon_model_construction(model, failing_parser): the failure path of a load.  For one model: every
+# per-object storage entry of its user-class instances is dropped; the user classes are restored exactly when
+# the model is still in construction and its parser is not the one whose call failed (that one restores its
+# own increment in get_model_from_str).
+# --------------------------------------------------------------------------
+AB_INST = "as_list(the_parser._user_class_inst)"
+Unit(
+    "model._abandon_model_construction",
+    target="textx/model.py::_abandon_model_construction",
+    props=["C14", "C15"],
+    params={"model": "obj", "failing_parser": "any"},
+    requires=["implies(hasattr(model, '_tx_parser') and model._tx_parser is not None,"
+              " is_instance(model._tx_parser, 'TextXModelParser') and is_list(model._tx_parser._user_class_inst))"],
+    calls={
+        "the_parser._restore_user_attr_methods": Ext("restore", raises=None, returns="none",
+                                                     note="verified: model.TextXModelParser._restore_user_attr_methods"),
+        "obj.__class__._tx_obj_attrs.pop": "dict.pop",
+    },
+    locals={"the_parser": "obj:TextXModelParser|none"},
+    modifies=["*"],
+    ext_protect=["model._tx_parser", "list(model._tx_parser._user_class_inst)"],
+    loops={"for:getattr(the_parser, '_user_class_inst', [])": Loop(
+        modifies=["*"], protect=["model._tx_parser", "list(_it)", "ATTR:_tx_reference_resolver"],
+        inv=[])},
+    ensures=[
+        ("C14-C15-classes-restored-exactly-for-a-model-still-in-construction-of-another-parser",
+         "n_calls('restore') == (1 if old(hasattr(model, '_tx_parser') and model._tx_parser is not None"
+         " and hasattr(model, '_tx_reference_resolver') and model._tx_parser != failing_parser) else 0)"),
+        ("C15-the-restore-comes-after-the-storage-was-dropped",
+         "implies(n_calls('restore') == 1, evpos('restore', 0) == n_calls() - 1)"),
+        ("returns-nothing", "result is None"),
+    ],
+    canary="n_calls('restore') == 1",
+)
+
+Unit(
+    "model._abandon_model_construction.per-object",
+    target="textx/model.py::_abandon_model_construction",
+    region="body:for:getattr(the_parser, '_user_class_inst', [])",
+    props=["C14", "C15"],
+    params={"obj": "obj"},
+    requires=["hasattr(cls(obj), '_tx_obj_attrs')"],
+    calls={"obj.__class__._tx_obj_attrs.pop": "dict.pop"},
+    modifies=["dict(cls(obj)._tx_obj_attrs)"],
+    ensures=[("C15-per-object-storage-entry-is-dropped", "not (id(obj) in as_dict(cls(obj)._tx_obj_attrs))")],
+    canary="id(obj) in as_dict(cls(obj)._tx_obj_attrs)",
+)
+
+
+# --------------------------------------------------------------------------
 # bounded battery / native replay (never counted as proved): user classes through the public API.
 # One violation label per scenario, so that a known finding names exactly one of them.
 # --------------------------------------------------------------------------
